@@ -4,10 +4,17 @@
    reset-dep of each task observed (definition, checker, file system); it is never read by the
    transitions of the modelled code.  Definitions only.
 
-   File system: a global clock hands out mtimes; [Write]/[Touch] always take a fresh one
-   (hypothesis FS-fresh built into their semantics); [WriteSameMtime] is the operation that breaks
-   it (content replaced, mtime and size kept), excluded from the theorems by [fs_fresh] and used in
-   the `_refuted` companion.  [size_of] is an oracle (size of the byte string behind a content id). *)
+   File system.  Writes may carry ANY mtime ([WriteAt]/[TouchAt]: cp -p, tar, rsync -t, os.utime,
+   restoring a backup -- older or newer than anything recorded); [Write]/[Touch] are the special
+   case that takes the mtime from a forward-only clock.  The hypothesis FS-fresh that the md5
+   checker's documented optimisation ("same timestamp: same content") rests on is NOT monotonicity
+   but: one file never carries the same mtime with two different contents.  The GHOST [s_seen]
+   records every (file, mtime) -> (size, content) a history has produced; [op_ok] says that the
+   version an operation writes agrees with it, [hist_ok] that every operation of a history does.
+   [fs_fresh] (only forward-clock writes) implies it (Proofs/HistoryP.v fresh_hist_ok).  The weaker
+   reading "a write never leaves the mtime unchanged" ([hist_changes_mtime]) is not enough: see
+   C03_mtime_reuse_refuted.  [WriteSameMtime] (content replaced, mtime and size kept) is the
+   simplest operation that breaks it.  [size_of] is an oracle (size of the bytes behind a content id). *)
 From DoitV Require Export Base Status.
 Open Scope Z_scope.
 
@@ -17,6 +24,8 @@ Inductive op :=
 | Write (f : file) (c : N)            (* create / overwrite with content c, fresh mtime *)
 | Touch (f : file)                    (* same content, fresh mtime (no-op when missing) *)
 | Delete (f : file)
+| WriteAt (f : file) (c : N) (m : Z)  (* create / overwrite with content c and mtime m (any m) *)
+| TouchAt (f : file) (m : Z)          (* same content, mtime set to m (no-op when missing) *)
 | WriteSameMtime (f : file) (c : N)   (* NOT FS-fresh: other content, same mtime and size (no-op when missing) *)
 | SetDef (t : name) (d : tdef)        (* the dodo file changed: file_dep / targets / uptodate / what the actions return *)
 | SetChecker (c : ck)                 (* check_file_uptodate changed *)
@@ -37,6 +46,7 @@ Inductive obs :=
 Record state := {
   s_fs : fsys;
   s_clock : Z;
+  s_seen : file -> Z -> option (Z * N);  (* ghost: every version (mtime -> size, content) each file ever had *)
   s_db : db;
   s_defs : name -> tdef;
   s_ck : ck;
@@ -46,7 +56,7 @@ Record state := {
 }.
 
 Definition init : state :=
-  {| s_fs := fun _ => None; s_clock := 1; s_db := empty_db; s_defs := fun _ => empty_def; s_ck := MD5;
+  {| s_fs := fun _ => None; s_clock := 1; s_seen := fun _ _ => None; s_db := empty_db; s_defs := fun _ => empty_def; s_ck := MD5;
      s_last_ok := fun _ => None; s_crashed := false; s_log := [] |}.
 
 Section History.
@@ -54,11 +64,17 @@ Variable md5 : N -> N.
 Variable size_of : N -> Z.
 Variable v : ver.
 
+Definition see (sn : file -> Z -> option (Z * N)) (f : file) (m : meta) : file -> Z -> option (Z * N) :=
+  fun f' t' => if N.eqb f' f && Z.eqb t' (mtime m) then Some (size m, content m) else sn f' t'.
+(* the file system after f became version m *)
+Definition put (s : state) (f : file) (m : meta) (clk : Z) : state :=
+  {| s_fs := upd (s_fs s) f (Some m); s_clock := clk; s_seen := see (s_seen s) f m; s_db := s_db s; s_defs := s_defs s;
+     s_ck := s_ck s; s_last_ok := s_last_ok s; s_crashed := s_crashed s; s_log := s_log s |}.
 Definition with_fs (s : state) (fs : fsys) (clk : Z) : state :=
-  {| s_fs := fs; s_clock := clk; s_db := s_db s; s_defs := s_defs s; s_ck := s_ck s;
+  {| s_fs := fs; s_clock := clk; s_seen := s_seen s; s_db := s_db s; s_defs := s_defs s; s_ck := s_ck s;
      s_last_ok := s_last_ok s; s_crashed := s_crashed s; s_log := s_log s |}.
 Definition with_db (s : state) (d : db) (g : name -> option snapshot) (crash : bool) (o : list obs) : state :=
-  {| s_fs := s_fs s; s_clock := s_clock s; s_db := d; s_defs := s_defs s; s_ck := s_ck s;
+  {| s_fs := s_fs s; s_clock := s_clock s; s_seen := s_seen s; s_db := d; s_defs := s_defs s; s_ck := s_ck s;
      s_last_ok := g; s_crashed := s_crashed s || crash; s_log := o ++ s_log s |}.
 
 Definition snap (s : state) (t : name) (values : vals) : snapshot :=
@@ -67,26 +83,33 @@ Definition snap (s : state) (t : name) (values : vals) : snapshot :=
 Definition prune (d : db) (g : name -> option snapshot) (t : name) : name -> option snapshot :=
   match d t with None => upd g t None | Some _ => g end.
 
+(* the version of a file an operation writes, if any *)
+Definition new_version (s : state) (o : op) : option (file * meta) :=
+  match o with
+  | Write f c => Some (f, {| mtime := s_clock s; size := size_of c; content := c |})
+  | WriteAt f c m => Some (f, {| mtime := m; size := size_of c; content := c |})
+  | Touch f => match s_fs s f with Some x => Some (f, {| mtime := s_clock s; size := size x; content := content x |}) | None => None end
+  | TouchAt f m => match s_fs s f with Some x => Some (f, {| mtime := m; size := size x; content := content x |}) | None => None end
+  | WriteSameMtime f c => match s_fs s f with Some x => Some (f, {| mtime := mtime x; size := size x; content := c |}) | None => None end
+  | _ => None
+  end.
+Definition ticks (o : op) : bool := match o with Write _ _ | Touch _ => true | _ => false end.
+Definition step_write (s : state) (o : op) : state :=
+  let clk := if ticks o then s_clock s + 1 else s_clock s in
+  match new_version s o with
+  | Some (f, m) => put s f m clk
+  | None => with_fs s (s_fs s) clk
+  end.
+
 Definition step (s : state) (o : op) : state :=
   match o with
-  | Write f c =>
-      with_fs s (upd (s_fs s) f (Some {| mtime := s_clock s; size := size_of c; content := c |})) (s_clock s + 1)
-  | Touch f =>
-      match s_fs s f with
-      | Some m => with_fs s (upd (s_fs s) f (Some {| mtime := s_clock s; size := size m; content := content m |})) (s_clock s + 1)
-      | None => with_fs s (s_fs s) (s_clock s + 1)
-      end
+  | Write _ _ | Touch _ | WriteAt _ _ _ | TouchAt _ _ | WriteSameMtime _ _ => step_write s o
   | Delete f => with_fs s (upd (s_fs s) f None) (s_clock s)
-  | WriteSameMtime f c =>
-      match s_fs s f with
-      | Some m => with_fs s (upd (s_fs s) f (Some {| mtime := mtime m; size := size m; content := c |})) (s_clock s)
-      | None => s
-      end
   | SetDef t d =>
-      {| s_fs := s_fs s; s_clock := s_clock s; s_db := s_db s; s_defs := upd (s_defs s) t d; s_ck := s_ck s;
+      {| s_fs := s_fs s; s_clock := s_clock s; s_seen := s_seen s; s_db := s_db s; s_defs := upd (s_defs s) t d; s_ck := s_ck s;
          s_last_ok := s_last_ok s; s_crashed := s_crashed s; s_log := s_log s |}
   | SetChecker c =>
-      {| s_fs := s_fs s; s_clock := s_clock s; s_db := s_db s; s_defs := s_defs s; s_ck := c;
+      {| s_fs := s_fs s; s_clock := s_clock s; s_seen := s_seen s; s_db := s_db s; s_defs := s_defs s; s_ck := c;
          s_last_ok := s_last_ok s; s_crashed := s_crashed s; s_log := s_log s |}
   | SaveOk t =>
       let '(d, o) := process_success md5 v (s_ck s) (s_fs s) (s_db s) t (s_defs s t) in
@@ -119,8 +142,28 @@ Definition run (ops : list op) : state := run_from init ops.
 Definition check (s : state) (t : name) : gs_result :=
   get_status md5 v (s_ck s) (s_fs s) (s_db s) t (s_defs s t) false.
 
-Definition fresh_op (o : op) : bool := match o with WriteSameMtime _ _ => false | _ => true end.
+(* FS-fresh: the version an operation writes agrees with every version of that file seen so far under the same mtime *)
+Definition consistent (sn : file -> Z -> option (Z * N)) (f : file) (m : meta) : bool :=
+  match sn f (mtime m) with None => true | Some (sz, c) => Z.eqb sz (size m) && N.eqb c (content m) end.
+Definition op_ok (s : state) (o : op) : bool :=
+  match new_version s o with Some (f, m) => consistent (s_seen s) f m | None => true end.
+Fixpoint hist_ok_from (s : state) (ops : list op) : bool :=
+  match ops with [] => true | o :: r => op_ok s o && hist_ok_from (step s o) r end.
+Definition hist_ok (ops : list op) : bool := hist_ok_from init ops.
+
+(* the special case: only forward-clock writes *)
+Definition fresh_op (o : op) : bool := match o with WriteSameMtime _ _ | WriteAt _ _ _ | TouchAt _ _ => false | _ => true end.
 Definition fs_fresh (ops : list op) : bool := forallb fresh_op ops.
+
+(* the weaker reading of FS-fresh (not sufficient): every write changes the file's mtime *)
+Definition op_changes_mtime (s : state) (o : op) : bool :=
+  match new_version s o with
+  | Some (f, m) => match s_fs s f with Some old => negb (Z.eqb (mtime old) (mtime m)) | None => true end
+  | None => true
+  end.
+Fixpoint hist_changes_mtime_from (s : state) (ops : list op) : bool :=
+  match ops with [] => true | o :: r => op_changes_mtime s o && hist_changes_mtime_from (step s o) r end.
+Definition hist_changes_mtime (ops : list op) : bool := hist_changes_mtime_from init ops.
 
 (* ---- what the runner does with one task (Runner.select_task + process_task_result, without
    setup-tasks/getargs), as the operations it amounts to.  [fail]: the actions fail. ---- *)
